@@ -16,6 +16,8 @@ for n in range(16):
 
 TARGETS["deque"] = dict(src="scenarios/deque.cpp", defs=[])
 
+TARGETS["seqlock"] = dict(src="scenarios/seqlock.cpp", defs=[])
+
 GENERIC_KINDS = {"use-after-free", "wild-access", "double-free", "bad-free", "crash", "hang", "deadlock", "watchdog"}
 RACE_KINDS = {"race", "race-free", "race-free-vs-atomic"}
 
@@ -49,6 +51,8 @@ def attribute(scenario, config, kind, primary, weak):
             props = [lin, "C07"]
     elif fam == "deque":
         props = ["C16"] if kind in ("solo-bound", "solo-blocked") else ["C12"]
+    elif fam == "seqlock":
+        props = ["C16"] if kind in ("solo-bound", "solo-blocked") else ["C14"]
     elif fam == "reclaim":
         if kind in ("solo-bound", "solo-blocked"):
             props = ["C16"]
@@ -288,11 +292,22 @@ PLANS["C12"] = plan_simple(
     "may fail while overlapping another operation; every returned pointer must be a pushed item; capacities 2/4/8, growing and fixed arrays",
     {"executions_with_growth": 200, "successful_concurrent_steals": 1000, "failed_steals_under_overlap": 10})
 
+PLANS["C14"] = plan_simple(
+    "C14", "seqlock", r".", 4000, 60000,
+    "each evaluation = 1-2 writers (store / update / load) and 1-3 readers (load), <= 6 operations each, on seqlock<Blob<N,Align>, slots<S>> for sizes "
+    "9..40 bytes (incl. sizes that are not multiples of the word size and alignments 1/2/4), slots 1/2/3/4/8, under one seeded schedule; every loaded "
+    "value and every value handed to an update functor is decoded byte by byte against the pattern of the stored values; the history is judged by a WGL "
+    "search against an atomic register (update = atomic read-modify-write)", {"loads_overlapping_writes": 1000})
+
 # ---------------------------------------------------------------------------------------------------- manifest metadata
 NOT_YET = {}
 _LEVEL_NOTE = ("Trusted base: the xrt runtime (scheduler, vector clocks, heap shadow) and the sequential models in monitors/; gcc 12 -O1 "
                "TSan-instrumented build of the header-only library from /repo's working tree; executions explored = seeded sample, not all schedules.")
 META = {
+    "C14": dict(design_ref="DESIGN.md 5/C14", technique="runtime monitoring: byte-pattern oracle over all sizeof(T) bytes of every loaded value + WGL linearizability oracle (register / read-modify-write)",
+                level_text="11 element type / slot-count combinations including sizes and alignments below a word; every load result is checked bit for bit, histories are "
+                           "decided exactly against an atomic register.",
+                level_note=_LEVEL_NOTE),
     "C12": dict(design_ref="DESIGN.md 5/C12", technique="runtime monitoring: recorded histories under a controlled scheduler + WGL linearizability oracle (deque with failing steals) + pushed-item ledger",
                 level_text="Owner/thief histories with growth of the array inside the concurrent part and top/bottom moved to arbitrary offsets beforehand; every history is decided "
                            "exactly by the linearizability search; a returned pointer that is not a pushed item is a violation before it is dereferenced.",
